@@ -31,7 +31,7 @@ import sys
 from ..core import BUILD, hx, parallel_map, sha
 
 DRIVERS = ["drv_caller"]
-GENERATED = ["CallerShape", "CallerDescribe"]
+GENERATED = ["CallerShape", "CallerDescribe", "CallerQueries"]
 
 NQ = 2            # queries whose ordering points are forced (later ones run free and are only judged)
 _REPORTED = set()
@@ -292,7 +292,10 @@ def run(ctx, rep):
                 "non-trivial = both threads take part in the forced order" % NQ)
     rep.extra_trusted += ["std::sync Mutex/Condvar and the Rust memory model (the model is sequentially consistent at statement granularity)",
                           "ordering-point hooks in src/utils/process.rs (cfg(dandavison_delta_verif)) and their scheduler",
-                          "tools/extractors/caller.py (statement-order extraction)"]
+                          "tools/extractors/caller.py (statement-order extraction)",
+                          "tools/extractors/callerqueries.py (call graph by name: no type resolution; `.into()` and friends resolved to "
+                          "the conversions whose target type is named in the calling function; calls through stored function values "
+                          "and from foreign crates not seen)"]
     rep.assumptions += ["only the main thread calls calling_process(); a query's critical section does not call calling_process() again",
                         "the real code is exercised on the forced schedules (and unforced stress runs in the thorough tier) only; all other schedules are covered by the proof over the model"]
     mdl = ctx.model("drv_caller") if ctx.drivers_ok else None
@@ -328,7 +331,31 @@ SUBCOMMANDS = {
     "git-diff": (["--line-numbers"], ["git", "diff", "HEAD~1"], False),
     "git-grep": ([], ["git", "grep", "-n", "words"], False),
     "rg": ([], ["rg", "words"], False),
+    # T18: options whose processing consults (or could be made to consult) the calling process x launched word diffs
+    # (--word-diff=porcelain is used in SHOWCONFIG only: its lines end in blanks, which the shown-lines comparison strips)
+    "sbs:git-diff--word-diff-plain": (["--side-by-side"], ["git", "diff", "--word-diff=plain", "HEAD~1", "--", "notes.txt"], True),
+    "feature-sbs:git-diff--word-diff": (["--features", "side-by-side"], ["git", "diff", "--word-diff", "HEAD~1", "--", "notes.txt"], True),
+    "feature-ln:git-show--color-words": (["--features", "line-numbers"], ["git", "show", "--color-words", "HEAD", "--", "notes.txt"], True),
+    "ln+sbs+hyperlinks:git-diff--word-diff": (["--line-numbers", "--side-by-side", "--hyperlinks"],
+                                             ["git", "diff", "--word-diff", "HEAD~1", "--", "notes.txt"], True),
+    "ln+relative-paths+navigate:git-log--word-diff-regex": (["--line-numbers", "--relative-paths", "--navigate"],
+                                                           ["git", "log", "-p", "-1", "--word-diff-regex=[a-z]+", "--", "notes.txt"], True),
+    "sbs:git-diff": (["--side-by-side"], ["git", "diff", "HEAD~1"], False),
 }
+# the configurations added for T18 run a fifth of the model schedules in the quick tier
+REDUCED = {n for n in SUBCOMMANDS if ":" in n}
+# `delta <options> --show-config <launched command>`: start-up only (run_app returns after show_config); the settings
+# printed must be those of a word diff. name -> (options, command, word diff, line-numbers/side-by-side requested)
+SHOWCONFIG = {
+    "ln": (["--line-numbers"], ["git", "diff", "--word-diff", "HEAD~1"], True),
+    "sbs": (["--side-by-side"], ["git", "diff", "--color-words", "HEAD~1"], True),
+    "feature-sbs": (["--features", "side-by-side"], ["git", "show", "--word-diff-regex=.", "HEAD"], True),
+    "feature-ln+navigate": (["--features", "line-numbers navigate"], ["git", "log", "-p", "--word-diff=porcelain"], True),
+    "plain": ([], ["git", "diff", "--word-diff", "HEAD~1"], True),
+    "ln:no-word-diff": (["--line-numbers", "--side-by-side"], ["git", "diff", "HEAD~1"], False),
+    "sbs:rg": (["--side-by-side"], ["rg", "words"], False),
+}
+_GRAPH = {}
 # what delta really executes for a launched command (subcommands/external.rs)
 LAUNCH_PREFIX = {"git": ["git", "-c", "color.ui=always"], "rg": ["rg", "--json"]}
 # Violating trace of Caller.stepMainLatePub (C20.late_publication_violates_known_wins): first query before the publication
@@ -473,7 +500,7 @@ def subcommand_mode(ctx, rep, mdl, wd, schedules):
             rep.notes.setdefault("subcommand_piped_failed", []).append(name)
         for i in range(ctx.n(3, 10)):
             jobs.append((name, "unforced run %d" % (i + 1), None, want, piped_out))
-        sel = schedules if (not ctx.quick() or SUBCOMMANDS[name][2]) else schedules[::5]
+        sel = schedules if (not ctx.quick() or (SUBCOMMANDS[name][2] and name not in REDUCED)) else schedules[::5]
         for s in sel:
             jobs.append((name, "forced schedule", s, want, piped_out))
         jobs.append((name, "attack:late-publication", ATTACK_LATE_PUB, want, piped_out))
@@ -482,10 +509,18 @@ def subcommand_mode(ctx, rep, mdl, wd, schedules):
         i, (name, desc, sched, want, piped_out) = ij
         r = sub_run(ctx, wd, name, "launch", sched, "sub-%d" % i)
         bad = sub_oracle(rep, name, desc, sched or "", r, want, piped_out)
-        ev = parse_log(r["log"])["events"]
-        return name, desc, sched, r["rc"], bad, (sched is None or ev == sched.split(","))
+        pl = parse_log(r["log"])
+        ev = pl["events"]
+        early = pl["order"].index("known") if "known" in pl["order"] else len(pl["order"])
+        return name, desc, sched, r["rc"], bad, (sched is None or ev == sched.split(",")), early
 
-    for name, desc, sched, rc, bad, completed in parallel_map(one, list(enumerate(jobs)), workers=12):
+    for name, desc, sched, rc, bad, completed, early in parallel_map(one, list(enumerate(jobs)), workers=12):
+        if _GRAPH.get("prequery") is not None and rc == 0:
+            # the call graph says how many query primitives the statements before the publication can reach (none):
+            # the run must not have started a query before the `known` log line
+            rep.corr_case("caller.prequery", (early > 0) == (_GRAPH["prequery"] > 0),
+                          dict(scenario="sub:" + name, run=desc, schedule=sched, queries_before_publication=early,
+                               model_query_primitives_reachable_before_publication=_GRAPH["prequery"]))
         rep.case(key=("sub", name, desc, sched), nontrivial=True,
                  sample=dict(scenario="sub:" + name, run=desc, schedule=sched, rc=rc, failures=bad))
         kind = desc.split(" ")[0] if not desc.startswith("attack") else "attack"
@@ -497,6 +532,197 @@ def subcommand_mode(ctx, rep, mdl, wd, schedules):
         elif desc.startswith("attack"):
             # the model rules this order out (the first query never precedes the publication)
             rep.corr_case("subcommand.attack", rc == 96, dict(scenario="sub:" + name, schedule=sched, rc=rc, failures=bad))
+
+
+def showconfig_mode(ctx, rep, mdl, wd):
+    """Start-up only: `delta <options> --show-config <launched command>`. Every query comes after the publication and
+    returns the launched command; a launched word diff is reported with line-numbers / side-by-side off."""
+    if not os.path.isdir(os.path.join(wd, "repo")):
+        return
+    repo = os.path.join(wd, "repo")
+
+    def one(name):
+        opts, cmd, word = SHOWCONFIG[name]
+        log = os.path.join(wd, "log-showconfig-" + name.replace(":", "_"))
+        argv = [ctx.delta, "--no-gitconfig", "--width=80"] + opts + ["--show-config"] + cmd
+        try:
+            p = subprocess.run(argv, cwd=repo, env=sub_env(wd, {"DELTA_VERIF_SCHEDULE_LOG": log, "DELTA_VERIF_FORCE_GUESS": "none"}),
+                               stdin=subprocess.DEVNULL, stdout=subprocess.PIPE, stderr=subprocess.PIPE, timeout=RUN_TIMEOUT)
+            rc, out, err = p.returncode, p.stdout, p.stderr
+        except subprocess.TimeoutExpired as ex:
+            rc, out, err = "timeout", ex.stdout or b"", ex.stderr or b""
+        lines = [ln for ln in (open(log).read().split("\n") if os.path.exists(log) else []) if ln]
+        return name, rc, out.decode("utf-8", "replace"), err.decode("utf-8", "replace")[-300:], lines
+
+    for name, rc, out, err, log in parallel_map(one, list(SHOWCONFIG), workers=4):
+        opts, cmd, word = SHOWCONFIG[name]
+        scen = "showconfig:" + name
+        parsed = parse_log(log)
+        settings = {}
+        for ln in out.split("\n"):
+            m = _re.match(r"\s+([a-z-]+)\s+= (.*)$", _SGR.sub("", ln))
+            if m:
+                settings[m.group(1)] = m.group(2).strip()
+        replay = dict(scenario=scen, command=["delta", "--no-gitconfig", "--width=80"] + opts + ["--show-config"] + cmd,
+                      schedule="", pinned_guess="none", repository_script=REPO_SCRIPT, rc=rc, log=log[-40:], stderr=err,
+                      settings={k: settings.get(k) for k in ("line-numbers", "side-by-side")}, run="show-config")
+        bad = []
+
+        def v(tag, what):
+            bad.append(tag)
+            sig = "c20:%s:%s" % (scen, tag)
+            rep.count("oracle-failure:" + sig)
+            if sig not in _REPORTED:
+                _REPORTED.add(sig)
+                rep.violation(sig, what, replay)
+
+        early = parsed["order"].index("known") if "known" in parsed["order"] else len(parsed["order"])
+        nq = len([k for k, q in parsed["queries"].items() if q["ret"]])
+        if rc == "timeout":
+            v("blocks-forever", "delta did not terminate within %d s" % RUN_TIMEOUT)
+        elif rc != 0:
+            v("exit-status", "exit status %r" % (rc,))
+        else:
+            if parsed["known"] is None:
+                v("not-published", "delta launched `%s` itself but published no command" % " ".join(cmd))
+            for k in sorted(parsed["queries"]):
+                q = parsed["queries"][k]
+                if not (q["ret"] and q["checks"]):
+                    continue
+                if q["checks"][-1] == "Pending":
+                    v("pending-returned", "query %d returned Pending" % k)
+                elif parsed["known"] is not None and q["checks"][-1] != parsed["known"]:
+                    v("guess-after-publication" if early == 0 else "query-before-publication",
+                      "query %d made while the configuration was built returned %r, the launched command is %r"
+                      % (k, q["checks"][-1], parsed["known"]))
+            if early > 0:
+                v("query-before-publication", "%d quer%s started before the launched command `%s` was published (options %s)"
+                  % (early, "y" if early == 1 else "ies", " ".join(cmd), " ".join(opts)))
+            want = "false" if word else "true"
+            asked = [k for k in ("line-numbers", "side-by-side")
+                     if ("--" + k) in opts or any(k in o for o in opts if not o.startswith("--"))]
+            if "side-by-side" in asked and "line-numbers" not in asked:
+                asked.append("line-numbers")      # side-by-side switches line numbers on
+            for k in asked:
+                if settings.get(k) != want:
+                    v("word-diff-settings", "`delta %s --show-config %s` reports %s = %s (expected %s: the launched command is %sa "
+                      "word diff)" % (" ".join(opts), " ".join(cmd), k, settings.get(k), want, "" if word else "not "))
+        rep.case(key=("showconfig", name), nontrivial=True, sample=dict(scenario=scen, rc=rc, queries=nq, early=early, failures=bad,
+                                                                        settings=replay["settings"]))
+        rep.count("showconfig:%s:queries=%d" % (name, nq))
+        if _GRAPH.get("prequery") is not None and rc == 0:
+            rep.corr_case("caller.prequery", (early > 0) == (_GRAPH["prequery"] > 0),
+                          dict(scenario=scen, queries_before_publication=early,
+                               model_query_primitives_reachable_before_publication=_GRAPH["prequery"]))
+            # queries were made during start-up => the graph must say that a statement executed there can query
+            rep.corr_case("caller.startup_queries", nq == 0 or _GRAPH.get("config_can_query", False),
+                          dict(scenario=scen, queries=nq, model_config_from_can_query=_GRAPH.get("config_can_query")))
+
+
+def graph_check(ctx, rep, mdl):
+    """The call graph of REPO now (tools/extractors/callerqueries.py), judged in Python — the same facts are the theorems
+    C20.no_query_before_publication / startup_order_from_call_graph / first_answer_is_cached_after_publication; this copy does
+    not depend on the shared Generated/ directory and names the offending call chain — and compared with what the model
+    driver computes on the generated graph (`caller.graph`, `caller.reach`: CallGraph.closure on bit sets)."""
+    import importlib.util
+    from ..core import REPO, ROOT
+    spec = importlib.util.spec_from_file_location("extractor_callerqueries", os.path.join(ROOT, "tools", "extractors", "callerqueries.py"))
+    ex = importlib.util.module_from_spec(spec)
+    spec.loader.exec_module(ex)
+    try:
+        ex.gen(REPO)
+    except SystemExit as e:
+        rep.broken_proofs.append("call graph of the start-up phase not recognised: %s" % e)
+        return
+    g = ex.gen.last
+    keys, adj, prims = g["keys"], g["adj"], set(g["prims"])
+
+    def closure(roots):
+        seen, st = {}, [(r, None) for r in roots]
+        while st:
+            x, frm = st.pop()
+            if x in seen:
+                continue
+            seen[x] = frm
+            st.extend((y, x) for y in adj[x])
+        return seen
+
+    def chain(seen, x):
+        out = []
+        while x is not None:
+            out.append(keys[x])
+            x = seen[x]
+        return " <- ".join(out)
+
+    pre_hits = 0
+    pre_bits, post_bits = "", ""
+    for label, roots in g["pre"] + [("implicitly called trait methods (Drop, Display, ...)", g["implicit"])]:
+        seen = closure(roots)
+        hit = sorted(p for p in prims if p in seen)
+        if label.startswith(("main:", "run_app:")):
+            pre_bits += "1" if hit else "0"
+        for pnode in hit:
+            pre_hits += 1
+            rep.broken_proofs.append("C20.no_query_before_publication / C20.first_answer_is_cached_after_publication: `%s`, which runs BEFORE "
+                                     "set_calling_process publishes the launched command, can query the calling process: %s"
+                                     % (label, chain(seen, pnode)))
+    for label, roots in g["post"]:
+        post_bits += "1" if prims & set(closure(roots)) else "0"
+    caches = [keys[c] for c in g["lazies"] if prims & set(closure([c]))]
+    cfg = keys.index("config::Config::from") if "config::Config::from" in keys else None
+    _GRAPH.update(prequery=pre_hits, config_can_query=bool(cfg is not None and prims & set(closure([cfg]))))
+    rep.notes["call_graph"] = dict(nodes=len(keys), edges=sum(len(a) for a in adj), query_primitives=[keys[p] for p in sorted(prims)],
+                                   caches_filled_by_a_query=caches, statements_before_publication=[l for l, _ in g["pre"]],
+                                   can_query_before=pre_bits, can_query_after=post_bits)
+    if mdl is None:
+        return
+    ans = mdl.ask(["caller.graph"])[0]
+    if not ans.startswith("ok "):
+        rep.corr_case("caller.graph", False, dict(answer=ans[:200]))
+        return
+    f = dict(w.split("=", 1) for w in ans.split()[1:])
+    mine = dict(nodes=str(len(keys)), sep="0" if pre_hits else "1", pre=pre_bits, post=post_bits, caches=",".join(caches) or "-")
+    for k, val in mine.items():
+        rep.corr_case("caller.graph", f.get(k) == val, dict(field=k, python=val, model=f.get(k)))
+    startup = f.get("startup", "").split(",")
+    shape = mdl.ask(["caller.shape"])[0]
+    want = dict(w.split("=", 1) for w in shape.split()[1:]).get("startup", "").split(",")
+    if startup != want and not pre_hits:
+        rep.broken_proofs.append("C20.startup_order_from_call_graph: by the call graph main.rs executes %s, the model %s" % (startup, want))
+    pick = sorted(ctx.rng.sample(range(len(keys)), min(len(keys), ctx.n(40, 400))))
+    answers = mdl.ask(["caller.reach " + hx(keys[i]) for i in pick])
+    for i, a in zip(pick, answers):
+        seen = closure([i])
+        mine = "ok %d %d" % (1 if prims & set(seen) else 0, len(seen))
+        rep.corr_case("caller.reach", a == mine, dict(node=keys[i], python=mine, model=a))
+        rep.case(key=("reach", keys[i]), nontrivial=len(seen) > 1, sample=dict(node=keys[i], can_query=bool(prims & set(seen)), closure=len(seen)))
+    # the process-lifetime cache: CallGraph.answers / queriesMade against the lazy_static rule written out here
+    reqs, exp = [], []
+    for _ in range(ctx.n(12, 120)):
+        acc = "".join(ctx.rng.choice("cd") for _ in range(ctx.rng.randint(0, 7)))
+        res = [ctx.rng.choice([1, 2]) for _ in range(ctx.rng.randint(0, 6))]
+        cache, out, left, made, short = None, [], list(res), 0, False
+        need, c2 = 0, False
+        for a in acc:
+            if a == "d" or not c2:
+                need += 1
+            if a == "c":
+                c2 = True
+        for a in acc:
+            if a == "c" and cache is not None:
+                out.append(cache)
+                continue
+            if not left:
+                short = True
+                break
+            r = left.pop(0)
+            if a == "c":
+                cache = r
+            out.append(r)
+        reqs.append("caller.answers %s %s" % (hx(acc), ",".join("v%d" % r for r in res) or "-"))
+        exp.append("ok made=%d %s" % (need, "short" if short else ",".join("v%d" % r for r in out)))
+    for rq, e, a in zip(reqs, exp, mdl.ask(reqs)):
+        rep.corr_case("caller.answers", a.strip() == e.strip(), dict(request=rq, python=e, model=a))
 
 
 def shape_check(ctx, rep, mdl):
@@ -536,6 +762,7 @@ def shape_check(ctx, rep, mdl):
 
 def _run(ctx, rep, mdl, wd):
     shape_check(ctx, rep, mdl)
+    graph_check(ctx, rep, mdl)
     jobs = []       # (scen, schedule, kind, timeout)
     feas = {}
     refs = {}
@@ -614,6 +841,7 @@ def _run(ctx, rep, mdl, wd):
                 rep.corr_case("caller.run", not res["impl_feasible"], info)
 
     subcommand_mode(ctx, rep, mdl, wd, feas.get("rg") or [])
+    showconfig_mode(ctx, rep, mdl, wd)
     scan_shape_check(ctx, rep, mdl)
     describe_mode(ctx, rep, mdl, wd, feas.get("stdin-none") or [])
     scan_mode(ctx, rep, mdl, wd, feas.get("stdin-none") or [])
